@@ -18,7 +18,7 @@ CK = {"bool": "KBool", "float32": "KF32", "float64": "KF64", "string": "KStr",
       "uint64": "(KUint W64)"}
 BITS = {"int": 64, "int8": 8, "int16": 16, "int32": 32, "int64": 64,
         "uint": 64, "uint8": 8, "uint16": 16, "uint32": 32, "uint64": 64}
-STRING_MODES = ("form", "path", "header", "httpx-form", "httpx-path", "httpx-header")
+STRING_MODES = ("form", "path", "header", "httpx-form", "httpx-path", "httpx-header", "dform")
 MODES = ["json", "key", "form", "path", "header", "httpx-json", "httpx-form", "httpx-path", "httpx-header"]
 
 
@@ -131,6 +131,97 @@ def dedup(d):
             seen[kv["k"]] = dedup(kv["v"])
         return {"o": [{"k": k, "v": seen[k]} for k in order]}
     return d
+
+
+# ---------------------------------------------------------------------------- calls, passes, views
+
+# entry point -> (tag key, key semantics + unmarshaller options as a Gallina [kcfg])
+ENTRY = {
+    "json": ("json", "kc_json"), "jsonreader": ("json", "kc_json"), "jsonmap": ("json", "kc_json"),
+    "yaml": ("json", "kc_json"), "toml": ("json", "kc_json"), "httpx-json": ("json", "kc_json"),
+    "key": ("key", "kc_json"),
+    "header": ("header", "kc_header"), "httpx-header": ("header", "kc_header"),
+    "form": ("form", "kc_form"), "httpx-form": ("form", "kc_form"),
+    "path": ("path", "kc_path"), "httpx-path": ("path", "kc_path"),
+    # the same data read with the OTHER key semantics (mapping.WithOpaqueKeys given or left out)
+    "okey": ("key", "(mkK (mkCfg false false false) seg_opaque)"),
+    "ojson": ("json", "(mkK (mkCfg false false false) seg_opaque)"),
+    "dform": ("form", "(mkK (mkCfg true true false) seg_dotted)"),
+}
+PASS_KC = {"path": "kc_path", "form": "kc_form", "header": "kc_header", "json": "kc_json"}
+PARSE_ORDER = ["path", "form", "header", "json"]      # rest/httpx.Parse
+TEXT_MODES = ("json", "jsonreader", "yaml", "toml", "httpx-json", "ojson")
+STRING_TAGS = ("form", "path", "header")
+
+
+def tag_of(mode):
+    return ENTRY[mode][0]
+
+
+def is_multi(t):
+    """does the type carry per-field tag sets (several unmarshaller kinds read it)?"""
+    t = deref(t)
+    if t["k"] in ("slice", "map"):
+        return is_multi(t["e"])
+    if t["k"] != "struct":
+        return False
+    return any(f.get("tags") is not None or is_multi(f["t"]) for f in t["f"])
+
+
+def view_type(t, tag):
+    """the struct type as the unmarshaller for `tag` sees it: fields tagged otherwise are skipped
+    (usingDifferentKeys), the others carry the key and options of that tag"""
+    k = t["k"]
+    if k in ("ptr", "slice", "map"):
+        return {"k": k, "e": view_type(t["e"], tag)}
+    if k != "struct":
+        return t
+    fs = []
+    for f in t["f"]:
+        tags = f.get("tags")
+        if tags is None:
+            g = dict(f)
+            g["t"] = view_type(f["t"], tag)
+            fs.append(g)
+            continue
+        if tag not in tags:
+            continue
+        ts = tags[tag]
+        g = {"key": ts["key"], "o": ts.get("o"), "t": view_type(f["t"], tag)}
+        if f.get("anon"):
+            g["anon"] = True
+        fs.append(g)
+    return {"k": "struct", "f": fs}
+
+
+def project_val(t, tag, v, drop=()):
+    """the dumped value restricted to the fields that the unmarshaller for `tag` sees"""
+    if v is None:
+        return None
+    k = t["k"]
+    if k == "ptr":
+        return v if "z" in v else {"p": project_val(t["e"], tag, v["p"])}
+    if k == "slice":
+        return v if "z" in v else {"l": [project_val(t["e"], tag, e) for e in v["l"]]}
+    if k == "map":
+        return v if "z" in v else {"m": [[kk, project_val(t["e"], tag, e)] for kk, e in v["m"]]}
+    if k != "struct":
+        return v
+    out = []
+    for i, (f, x) in enumerate(zip(t["f"], v["st"])):
+        tags = f.get("tags")
+        if tags is not None and tag not in tags:
+            continue
+        if i in drop:
+            continue
+        out.append(project_val(f["t"], tag, x))
+    return {"st": out}
+
+
+def drop_fields(t, drop):
+    if not drop:
+        return t
+    return {"k": "struct", "f": [f for i, f in enumerate(t["f"]) if i not in drop]}
 
 
 # ---------------------------------------------------------------------------- Coq rendering
@@ -726,13 +817,64 @@ class Gen:
         return finish({"mode": mode, "type": st, "doc": doc, "intent": bad[1] if bad else "valid"})
 
 
-def sanitize_string_doc(c):
+MAX_FORM_VALUES = 2048     # rest/httpx/util.go maxFormParamCount
+MAX_BODY = 8 << 20         # rest/httpx/requests.go maxBodyLen
+JSON_CTYPE = "application/json"
+
+
+def tame(d):
+    """documents that YAML and TOML texts can carry without their own number / null conventions
+    getting in the way (C17 owns those): integers, short decimals, strings, booleans, arrays, objects"""
+    import re
+    if "n" in d:
+        return re.fullmatch(r"-?(0|[1-9][0-9]{0,14})(\.[0-9]{0,5}[1-9])?", d["n"]) is not None and d["n"] != "-0"
+    if "s" in d:
+        return all(32 <= ord(ch) < 127 and ch not in "\\\"'" for ch in d["s"])
+    if "b" in d:
+        return True
+    if "a" in d:
+        return bool(d["a"]) and all(tame(e) for e in d["a"]) and len({tuple(sorted(e.keys())) for e in d["a"]}) == 1
+    if "o" in d:
+        return all(tame(kv["v"]) and kv["k"] and all(32 <= ord(ch) < 127 and ch not in "\\\"'" for ch in kv["k"])
+                   for kv in d["o"]) and len({kv["k"] for kv in d["o"]}) == len(d["o"])
+    return False
+
+
+def yaml_text(d, block):
+    """flow style = the JSON text; block style for the top-level members"""
+    if not block:
+        return raw_json(d)
+    if not d["o"]:
+        return "{}"
+    return "".join("%s: %s\n" % (json.dumps(kv["k"]), raw_json(kv["v"])) for kv in d["o"])
+
+
+def toml_value(d):
+    if "a" in d:
+        return "[" + ", ".join(toml_value(e) for e in d["a"]) + "]"
+    if "o" in d:
+        return "{" + ", ".join("%s = %s" % (json.dumps(kv["k"]), toml_value(kv["v"])) for kv in d["o"]) + "}"
+    return raw_json(d)
+
+
+def toml_text(d):
+    """scalars and arrays first, then one [table] per object-valued member"""
+    lines = []
+    for kv in d["o"]:
+        if "o" not in kv["v"]:
+            lines.append("%s = %s" % (json.dumps(kv["k"]), toml_value(kv["v"])))
+    for kv in d["o"]:
+        if "o" in kv["v"]:
+            lines.append("[%s]" % json.dumps(kv["k"]))
+            for kv2 in kv["v"]["o"]:
+                lines.append("%s = %s" % (json.dumps(kv2["k"]), toml_value(kv2["v"])))
+    return "\n".join(lines) + "\n"
+
+
+def sanitize_string_doc(mode, d):
     """parameter maps hold strings (path), strings or string lists (header), string lists (form)"""
-    mode = c["mode"]
-    d = c.get("doc")
     if d is None or "o" not in d:
-        c["doc"] = dobj([])
-        d = c["doc"]
+        d = dobj([])
     for kv in d["o"]:
         v = kv["v"]
         if "s" in v:
@@ -741,7 +883,7 @@ def sanitize_string_doc(c):
             vals = v["a"]
         else:
             vals = [ds("zz")]
-        if mode in ("form", "httpx-form"):
+        if mode in ("form", "httpx-form", "dform"):
             kv["v"] = {"a": vals}
         elif mode in ("path", "httpx-path"):
             kv["v"] = vals[0]
@@ -749,10 +891,7 @@ def sanitize_string_doc(c):
             kv["v"] = vals[0] if len(vals) == 1 else {"a": vals}
     seen = set()
     d["o"] = [kv for kv in d["o"] if not (kv["k"] in seen or seen.add(kv["k"]))]
-
-
-MAX_FORM_VALUES = 2048     # rest/httpx/util.go maxFormParamCount
-MAX_BODY = 8 << 20         # rest/httpx/requests.go maxBodyLen
+    return d
 
 
 def finish(c):
@@ -762,53 +901,119 @@ def finish(c):
         for st in c["steps"]:
             finish(st)
         return c
-    if mode in STRING_MODES:
-        sanitize_string_doc(c)
-    if mode in ("json", "httpx-json"):
+    if mode == "parse":
+        rq = c["req"]
+        for src, m in (("path", "path"), ("form", "form"), ("header", "header")):
+            if rq.get(src) is not None:
+                rq[src] = sanitize_string_doc(m, rq[src])
+        if rq.get("bodydoc") is not None:
+            if rq.get("body") is None:
+                rq["body"] = raw_json(rq["bodydoc"])
+            rq["bodydoc"] = dedup(rq["bodydoc"])
+        return c
+    if tag_of(mode) in STRING_TAGS:
+        c["doc"] = sanitize_string_doc(mode, c.get("doc"))
+    if mode in TEXT_MODES:
         if "raw" not in c:
-            c["raw"] = raw_json(c["doc"])
+            if mode == "yaml":
+                c["raw"] = yaml_text(c["doc"], bool(c.get("block")))
+            elif mode == "toml":
+                c["raw"] = toml_text(c["doc"])
+            else:
+                c["raw"] = raw_json(c["doc"])
         if c.get("doc") is not None:
             c["doc"] = dedup(c["doc"])
     return c
+
+
+def form_doc(d, repeat=None):
+    """what GetFormValues hands to the unmarshaller: empty values dropped, parameters left without
+    values dropped, a trailing [] of the name removed; None = "too many form values" """
+    if d is None:
+        return None
+    if repeat:
+        n = repeat["n"] if repeat["val"] != "" else 0
+        for kv in d["o"]:
+            v = kv["v"]
+            n += len([x for x in ([v] if "s" in v else v["a"]) if x["s"] != ""])
+        if n > MAX_FORM_VALUES:
+            return None
+    pairs = []
+    for kv in d["o"]:
+        v = kv["v"]
+        vals = [v] if "s" in v else v["a"]
+        vals = [x for x in vals if x["s"] != ""]
+        if vals:
+            k = kv["k"]
+            pairs.append((k[:-2] if k.endswith("[]") else k, {"a": vals}))
+    return dobj(pairs)
+
+
+def header_doc(d):
+    """ParseHeaders: a single value stays a string"""
+    if d is None:
+        return None
+    pairs = []
+    for kv in d["o"]:
+        v = kv["v"]
+        if "a" in v and len(v["a"]) == 1:
+            v = v["a"][0]
+        pairs.append((kv["k"], v))
+    return dobj(pairs)
+
+
+def body_doc(raw, doc, ctype, pad=0):
+    """ParseJsonBody: the body counts only when it is not empty and declared as JSON; it is cut at maxBodyLen"""
+    if raw is None or raw == "" or JSON_CTYPE not in (JSON_CTYPE if ctype is None else ctype):
+        return dobj([])
+    if pad and len(raw) + pad > MAX_BODY:
+        return None
+    return doc
 
 
 def model_doc(c):
     """the document the model sees (pre-processing done by net/http and rest/httpx is mirrored here)"""
     d = c.get("doc")
     mode = c["mode"]
-    if mode == "httpx-json" and c.get("raw") == "":
-        return dobj([])          # no body: ParseJsonBody unmarshals the nil map
-    if mode == "httpx-json" and c.get("pad") and len(c["raw"]) + c["pad"] > MAX_BODY:
-        return None              # the body is cut at maxBodyLen: the decoder sees a truncated stream
-    if mode == "httpx-form" and c.get("repeat") and d is not None:
-        n = c["repeat"]["n"] if c["repeat"]["val"] != "" else 0
-        for kv in d["o"]:
-            v = kv["v"]
-            n += len([x for x in ([v] if "s" in v else v["a"]) if x["s"] != ""])
-        if n > MAX_FORM_VALUES:
-            return None          # GetFormValues: "too many form values"
+    if mode == "httpx-json":
+        return body_doc(c.get("raw"), d, c.get("ctype"), c.get("pad") or 0)
+    if mode == "httpx-form":
+        return form_doc(d, c.get("repeat"))
     if d is None:
         return None
-    if mode == "httpx-form":
-        # GetFormValues drops empty values, and parameters left without values
-        pairs = []
-        for kv in d["o"]:
-            v = kv["v"]
-            vals = [v] if "s" in v else v["a"]
-            vals = [x for x in vals if x["s"] != ""]
-            if vals:
-                pairs.append((kv["k"], {"a": vals}))
-        return dobj(pairs)
     if mode in ("header", "httpx-header"):
-        # ParseHeaders: a single value stays a string
-        pairs = []
-        for kv in d["o"]:
-            v = kv["v"]
-            if "a" in v and len(v["a"]) == 1:
-                v = v["a"][0]
-            pairs.append((kv["k"], v))
-        return dobj(pairs)
+        return header_doc(d)
     return d
+
+
+def passes_of(c, obs):
+    """the passes of one call: (Gallina kcfg, the type as that unmarshaller sees it, its document,
+    the observed target restricted to its fields)"""
+    val = obs.get("val") if obs else None
+    if c["mode"] != "parse":
+        tag, kc = ENTRY[c["mode"]]
+        return [{"tag": tag, "kc": kc, "type": view_type(c["type"], tag), "doc": model_doc(c),
+                 "val": project_val(c["type"], tag, val)}]
+    rq = c["req"]
+    dual = {int(i): t for i, t in (c.get("dual") or {}).items()}
+    res = []
+    for tag in PARSE_ORDER:
+        drop = {i for i, owner in dual.items() if owner != tag}
+        # a field tagged for several passes and supplied to none of the others (it is optional there and has
+        # no default) is left untouched by them: it belongs to the pass that supplies it
+        full_drop = {i for i in drop if c["type"]["f"][i].get("tags") and tag in c["type"]["f"][i]["tags"]}
+        t = drop_fields(c["type"], full_drop)
+        if tag == "path":
+            d = rq.get("path") or dobj([])
+        elif tag == "form":
+            d = form_doc(rq.get("form") or dobj([]))
+        elif tag == "header":
+            d = header_doc(rq.get("header") or dobj([]))
+        else:
+            d = dobj([]) if rq.get("postform") else body_doc(rq.get("body"), rq.get("bodydoc"), rq.get("ctype"))
+        res.append({"tag": tag, "kc": PASS_KC[tag], "type": view_type(t, tag), "doc": d,
+                    "val": project_val(c["type"], tag, val, full_drop)})
+    return res
 
 
 def systematic(rng):
@@ -1168,8 +1373,14 @@ class C08(Property):
             if c["mode"] == "seq":
                 return {"id": i, "mode": "seq", "procs1": bool(c.get("procs1")),
                         "steps": [wire(st, j) for j, st in enumerate(c["steps"])]}
-            return {"id": i, "mode": c["mode"], "type": c["type"], "doc": c.get("doc"), "raw": c.get("raw"),
-                    "direct": bool(c.get("direct")), "pad": int(c.get("pad") or 0), "repeat": c.get("repeat")}
+            w = {"id": i, "mode": c["mode"], "type": c["type"], "doc": c.get("doc"), "raw": c.get("raw"),
+                 "direct": bool(c.get("direct")), "pad": int(c.get("pad") or 0), "repeat": c.get("repeat"),
+                 "validator": c.get("validator"), "ctype": c.get("ctype")}
+            if c["mode"] == "parse":
+                rq = c["req"]
+                w["req"] = {"path": rq.get("path"), "form": rq.get("form"), "header": rq.get("header"),
+                            "body": rq.get("body"), "ctype": rq.get("ctype"), "postform": bool(rq.get("postform"))}
+            return w
 
         payload = [wire(c, i) for i, c in enumerate(cases)]
         if len(payload) <= 320:
@@ -1193,7 +1404,8 @@ class C08(Property):
         for r in res:
             if r.get("fail"):
                 raise ExecError("c08 executor: case %s: %s" % (r.get("id"), r["fail"]))
-            one = lambda x: {"verdict": x["verdict"], "val": x.get("val"), "err": x.get("err", ""), "tag": x.get("tag", "")}
+            one = lambda x: {"verdict": x["verdict"], "val": x.get("val"), "err": x.get("err", ""), "tag": x.get("tag", ""),
+                             "called": bool(x.get("called"))}
             if r["verdict"] == "seq":
                 obs.append({"verdict": "seq", "steps": [one(x) for x in r["steps"]]})
             else:
@@ -1206,14 +1418,15 @@ class C08(Property):
         return clist([self.coq_step(case, obs)])
 
     def coq_step(self, case, obs):
-        mode = case["mode"]
-        cfg = "(mkCfg %s %s %s)" % (cbool(mode in STRING_MODES), cbool(mode in ("form", "httpx-form")),
-                                    cbool(mode in ("header", "httpx-header")))
-        d = model_doc(case)
-        doc = "None" if d is None else "(Some %s)" % cdoc(d)
+        ps = []
+        for p in passes_of(case, obs):
+            doc = "None" if p["doc"] is None else "(Some %s)" % cdoc(p["doc"])
+            val = "None" if p["val"] is None or obs["verdict"] != "ok" else "(Some %s)" % cval(p["val"])
+            ps.append("mkOPass (mkPass %s %s %s) %s" % (p["kc"], cfields(p["type"]["f"]), doc, val))
         verdict = {"ok": "VOk", "error": "VErr", "panic": "VPanic"}[obs["verdict"]]
-        val = "None" if obs.get("val") is None else "(Some %s)" % cval(obs["val"])
-        return "mkCase %s %s %s %s %s" % (cfg, cfields(case["type"]["f"]), doc, verdict, val)
+        vd = case.get("validator")
+        validator = "None" if vd is None else "(Some %s)" % cbool(vd == "accept")
+        return "mkOCall %s %s %s %s" % (clist(ps), validator, cbool(bool(obs.get("called"))), verdict)
 
     # ---- evidence -------------------------------------------------------------------
     @staticmethod
